@@ -129,6 +129,8 @@ def diff_sig(a, b):
         return "equal"
     steps = [s for s in d if "." in s and not s.startswith(("value:", "class:", "len:"))]
     kind = d[-1].split(":")[0] if ":" in d[-1] else "diff"
+    if kind == "class":
+        kind = d[-1]  # which class became which: part of the root cause
     return "/".join(steps[-3:]) + ":" + kind
 
 
